@@ -1,11 +1,10 @@
 (** C08 on ARBITRARY input bytes: the lazy reader never runs out of fuel, never panics and never
-    reports a string outside the input, PROVIDED every [lz_new] result is "sane" (strings inside the
-    input, no NaN, no panic, positions move forward).  For the Rust code as it is this is a genuine
-    restriction on the input ([safe_bytes]); refutation witnesses for the unrestricted claim are at
-    the end.  With the two repairs (string extent check, NaN -> ReadError) the restriction is a
-    theorem (see ReadRobustFixed.v), and the same proofs give the unconditional statements. *)
+    reports a string outside the input.  The first part gives the statements conditional on every
+    [lz_new] result being "sane" ([new_sane]); the last part PROVES [new_sane] for every position of
+    every input of bytes that fits the pointer width (this needs the two repairs of findings F1/F2:
+    string extent check, NaN -> ReadError) and derives the unconditional [C08_nopanic], [C08_strings]. *)
 From Coq Require Import NArith ZArith Lia List Bool Arith ZifyNat ZifyN ZifyBool.
-From SFV Require Import Base.Bytes Base.F64 Base.BytesProofs Read.Lazy Read.ReadRun Read.ReadSafe.
+From SFV Require Import Base.Bytes Base.F64 Base.BytesProofs Base.F64IntNoNan Read.Lazy Read.ReadRun Read.ReadSafe.
 Import ListNotations.
 Open Scope N_scope.
 
@@ -1185,45 +1184,170 @@ Theorem C08_deterministic : forall W trap fuel bs ops1 ops2, ops1 = ops2 ->
   outs (run W trap fuel bs ops1) = outs (run W trap fuel bs ops2).
 Proof. intros; subst; reflexivity. Qed.
 
-(** * Refutation witnesses for the unrestricted claim (genuine defects of the Rust code) *)
-(** F1: a NaN float in the input: the very first call panics ([assert!(!val.is_nan())]). *)
-Example C08_refuted_nan :
-  outs (run 32 true (fuel_bs [0xcb;0x7f;0xf8;0;0;0;0;0;0]) [0xcb;0x7f;0xf8;0;0;0;0;0;0] [RRoot]) = [OPanic P_nan_number].
-Proof. vm_compute. reflexivity. Qed.
-
-(** F2: str8 announcing 200 bytes in a 4-byte input: the reported string is not inside the input. *)
-Example C08_refuted_stray :
-  outs (run 32 true (fuel_bs [0xd9;0xc8;0x61;0x62]) [0xd9;0xc8;0x61;0x62] [RRoot; RStr (Some 0)])
-  = [OVal (AStr (0, []) 200); OStray].
-Proof. vm_compute. reflexivity. Qed.
-
-(** F2: a map key whose announced length exceeds the input: property lookup slices out of bounds. *)
-Example C08_refuted_key_slice :
-  outs (run 32 true (fuel_bs [0x81;0xd9;0x64;0x6b]) [0x81;0xd9;0x64;0x6b] [RRoot; RProp (Some 0) [0x6b]])
-  = [OVal (AObj (0, []) 1); OPanic P_key_slice].
-Proof. vm_compute. reflexivity. Qed.
-
-(** F2 + wrap-around (pointer width 32, overflow checks off = release build): a str32 whose
-    extent wraps to its own start makes a 10-byte input loop for as many iterations as the array
-    header announces; with overflow checks on it is an arithmetic-overflow panic instead. *)
-Definition wrap_input : list N := [0xdd;0xff;0xff;0xff;0xff;0xdb;0xff;0xff;0xff;0xfb].
-Example C08_refuted_fuel :
-  outs (run 32 false (fuel_bs wrap_input) wrap_input [RRoot; RIdx (Some 0) 1000])
-  = [OVal (AArr (0, []) 4294967295); OFuel].
-Proof. vm_compute. reflexivity. Qed.
-Example C08_refuted_overflow :
-  outs (run 32 true (fuel_bs wrap_input) wrap_input [RRoot; RIdx (Some 0) 1000])
-  = [OVal (AArr (0, []) 4294967295); OPanic P_add_overflow].
-Proof. vm_compute. reflexivity. Qed.
-
-Theorem C08_nopanic_refuted : exists W trap bs ops,
-  lenN bs < 2 ^ W /\ Forall (fun b => b < 256) bs /\ forallb no_bad (outs (run W trap (fuel_bs bs) bs ops)) = false.
+(** * [lz_new] of the repaired model is sane at every position of every input *)
+Lemma Forall_dropN {A} (P : A -> Prop) (l : list A) : forall n, Forall P l -> Forall P (dropN l n).
 Proof.
-  exists 32, true, [0x81;0xd9;0x64;0x6b], [RRoot; RProp (Some 0) [0x6b]].
-  split; [vm_compute; reflexivity|]. split; [repeat constructor|vm_compute; reflexivity].
+  induction l as [|x l IH]; intros n H; [constructor|].
+  cbn [dropN]. destruct (n =? 0); [exact H|]. inversion H; subst. apply IH. assumption.
+Qed.
+Lemma Forall_takeN {A} (P : A -> Prop) (l : list A) : forall n, Forall P l -> Forall P (takeN l n).
+Proof.
+  induction l as [|x l IH]; intros n H; [constructor|].
+  cbn [takeN]. destruct (n =? 0); [constructor|]. inversion H; subst. constructor; [assumption|]. apply IH. assumption.
+Qed.
+Lemma lenN_takeN {A} (l : list A) : forall n, lenN (takeN l n) <= n.
+Proof.
+  induction l as [|x l IH]; intros n; [cbn [takeN]; unfold lenN; cbn [length]; lia|].
+  cbn [takeN]. destruct (N.eqb_spec n 0); [unfold lenN; cbn [length]; lia|]. rewrite lenN_cons. specialize (IH (n - 1)). lia.
 Qed.
 
-(** The partial theorem is not vacuous: a well-formed nested document is [safe_bytes]. *)
-Example C08_partial_nonvacuous :
-  safe_bytes 32 true [0x82;0xa1;0x61;0x93;0x01;0xc0;0xa2;0x68;0x69;0xa1;0x62;0xcb;0x3f;0xf0;0;0;0;0;0;0] = true.
+Lemma be_fold_lt l : Forall (fun b => b < 256) l -> forall acc,
+  fold_left (fun a b => a * 256 + b) l acc < (acc + 1) * 256 ^ lenN l.
+Proof.
+  induction 1 as [|b l Hb Hl IH]; intros acc.
+  - cbn [fold_left]. rewrite lenN_nil, N.pow_0_r. lia.
+  - cbn [fold_left]. rewrite lenN_cons. specialize (IH (acc * 256 + b)).
+    replace (1 + lenN l) with (N.succ (lenN l)) by lia. rewrite N.pow_succ_r'.
+    assert (H1 : (acc * 256 + b + 1) * 256 ^ lenN l <= (acc + 1) * 256 * 256 ^ lenN l).
+    { apply N.mul_le_mono_r. lia. }
+    lia.
+Qed.
+Lemma be_val_lt l : Forall (fun b => b < 256) l -> be_val l < 256 ^ lenN l.
+Proof. intros H. unfold be_val. pose proof (be_fold_lt l H 0). lia. Qed.
+
+Section FixedSane.
+Variable W : N.
+Variable trap : bool.
+Variable bs : list N.
+Hypothesis HW : lenN bs < 2 ^ W.
+Hypothesis Hbytes : Forall (fun b => b < 256) bs.
+Let L := lenN bs.
+
+Lemma read_be_cases p k : read_be bs p k = Err E_Read \/
+  exists v, read_be bs p k = Ok v /\ p + N.of_nat k <= L /\ v < 256 ^ N.of_nat k.
+Proof.
+  unfold read_be. fold L. destruct (N.ltb_spec L (p + N.of_nat k)); [left; reflexivity|right].
+  eexists; split; [reflexivity|]. split; [lia|].
+  unfold sub. set (l := takeN (dropN bs p) (N.of_nat k)).
+  assert (Hl : Forall (fun b => b < 256) l) by (apply Forall_takeN, Forall_dropN; exact Hbytes).
+  pose proof (be_val_lt l Hl) as H1. pose proof (lenN_takeN (dropN bs p) (N.of_nat k)) as H2. fold l in H2.
+  eapply N.lt_le_trans; [exact H1|]. apply N.pow_le_mono_r; lia.
+Qed.
+
+Variable pos : N.
+Hypothesis Hpos : pos < L.
+
+Lemma via_be k (F : N -> res (lz * option N)) :
+  (forall v, pos + 1 + N.of_nat k <= L -> v < 256 ^ N.of_nat k -> new_sane bs pos (F v)) ->
+  new_sane bs pos (match read_be bs (pos + 1) k with
+                   | Ok v => F v | Err c => Err c | Panic s => Panic s | OutOfFuel => OutOfFuel end).
+Proof.
+  intros H. destruct (read_be_cases (pos + 1) k) as [->|(v & -> & H1 & H2)]; [exact I|]. apply H; assumption.
+Qed.
+
+Lemma leaf_num z e : (- 2 ^ 64 <= z <= 2 ^ 64)%Z -> pos < e -> e <= L -> new_sane bs pos (Ok (num z, Some e)).
+Proof.
+  intros Hz H1 H2. cbn [new_sane num is_comp]. split; [constructor; apply of_int_not_nan; exact Hz|].
+  exists e. auto.
+Qed.
+Lemma leaf_arr n e : pos < e -> e <= L -> new_sane bs pos (Ok (LArr n [] e, None)).
+Proof. intros H1 H2. cbn [new_sane is_comp]. split; [|reflexivity]. constructor; [rewrite lenN_nil; lia|exact H1|exact H2|constructor]. Qed.
+Lemma leaf_obj n e : pos < e -> e <= L -> new_sane bs pos (Ok (LObj n [] e, None)).
+Proof. intros H1 H2. cbn [new_sane is_comp]. split; [|reflexivity]. constructor; [rewrite lenN_nil; lia|exact H1|exact H2|constructor]. Qed.
+Lemma leaf_str ptr len : pos < ptr -> new_sane bs pos (str_at W trap bs ptr len).
+Proof.
+  intros H. unfold str_at, add_w. fold L. destruct (N.ltb_spec L (ptr + len)); [exact I|].
+  destruct (N.ltb_spec (ptr + len) (2 ^ W)); [|unfold L in *; lia].
+  cbn [new_sane is_comp]. split; [constructor; assumption|]. exists (ptr + len). repeat split; lia.
+Qed.
+
+Lemma to_signed_range k v : (k = 1 \/ k = 2 \/ k = 4 \/ k = 8)%nat -> v < 256 ^ N.of_nat k ->
+  (- 2 ^ 64 <= to_signed k v <= 2 ^ 64)%Z.
+Proof.
+  intros Hk Hv. unfold to_signed.
+  destruct Hk as [-> | [-> | [-> | ->]]]; cbn [N.of_nat Pos.of_succ_nat Pos.succ] in *.
+  - change (256 ^ 1) with 256 in Hv. change (8 * 1 - 1) with 7. change (8 * Z.of_nat 1)%Z with 8%Z.
+    destruct (v <? 2 ^ 7); lia.
+  - change (256 ^ 2) with 65536 in Hv. change (8 * 2 - 1) with 15. change (8 * Z.of_nat 2)%Z with 16%Z.
+    destruct (v <? 2 ^ 15); lia.
+  - change (256 ^ 4) with 4294967296 in Hv. change (8 * 4 - 1) with 31. change (8 * Z.of_nat 4)%Z with 32%Z.
+    destruct (v <? 2 ^ 31); lia.
+  - change (256 ^ 8) with 18446744073709551616 in Hv. change (8 * 8 - 1) with 63. change (8 * Z.of_nat 8)%Z with 64%Z.
+    destruct (v <? 2 ^ 63); lia.
+Qed.
+
+Lemma pow256_le k : (k = 1 \/ k = 2 \/ k = 4 \/ k = 8)%nat -> 256 ^ N.of_nat k <= 2 ^ 64.
+Proof. intros [-> | [-> | [-> | ->]]]; vm_compute; discriminate. Qed.
+
+Ltac ifs3 := repeat match goal with
+  | |- context [if N.ltb ?a ?b then _ else _] => destruct (N.ltb_spec a b)
+  | |- context [if N.eqb ?a ?b then _ else _] => destruct (N.eqb_spec a b)
+  | |- context [if N.leb ?a ?b then _ else _] => destruct (N.leb_spec a b)
+  end.
+
+Lemma lz_new_sane_at : new_sane bs pos (lz_new W trap bs pos).
+Proof.
+  unfold lz_new. destruct (nthN bs pos) as [m|] eqn:Em; [|exact I].
+  assert (Hm : m < 256).
+  { pose proof (proj1 (Forall_forall _ _) Hbytes m (r_nthN_In _ _ _ Em)). assumption. }
+  ifs3.
+  all: try (apply leaf_num; lia).
+  all: try (apply leaf_arr; lia).
+  all: try (apply leaf_obj; lia).
+  all: try (apply leaf_str; lia).
+  all: try exact I.
+  all: try (cbn [new_sane is_comp]; split; [constructor|exists (pos + 1); repeat split; lia]).
+  all: apply via_be; intros v Hb Hv.
+  all: try (apply leaf_num; [|lia|cbn [N.of_nat Pos.of_succ_nat Pos.succ] in Hb; lia]).
+  all: try (apply leaf_arr; cbn [N.of_nat Pos.of_succ_nat Pos.succ] in Hb; lia).
+  all: try (apply leaf_obj; cbn [N.of_nat Pos.of_succ_nat Pos.succ] in Hb; lia).
+  all: try (apply leaf_str; lia).
+  all: try (apply to_signed_range; [auto|exact Hv]).
+  all: try (match goal with H : ?v < 256 ^ N.of_nat ?k |- _ =>
+              pose proof (pow256_le k ltac:(auto)); lia end).
+  - (* f32 *) destruct (is_nan (of_f32 v)) eqn:En; [exact I|].
+    cbn [new_sane is_comp]. split; [constructor; exact En|].
+    exists (pos + 1 + 4). cbn [N.of_nat Pos.of_succ_nat Pos.succ] in Hb. repeat split; lia.
+  - (* f64 *) destruct (is_nan v) eqn:En; [exact I|].
+    cbn [new_sane is_comp]. split; [constructor; exact En|].
+    exists (pos + 1 + 8). cbn [N.of_nat Pos.of_succ_nat Pos.succ] in Hb. repeat split; lia.
+Qed.
+
+End FixedSane.
+
+Theorem lz_new_sane W trap bs : lenN bs < 2 ^ W -> Forall (fun b => b < 256) bs ->
+  forall pos, new_sane bs pos (lz_new W trap bs pos).
+Proof.
+  intros HW Hb pos. destruct (N.lt_ge_cases pos (lenN bs)) as [Hlt|Hge].
+  - apply lz_new_sane_at; assumption.
+  - rewrite lz_new_oob by exact Hge. exact I.
+Qed.
+
+(** * The unconditional statements for the repaired reader *)
+Theorem C08_nopanic : forall W trap bs ops, lenN bs < 2 ^ W -> Forall (fun b => b < 256) bs ->
+  forallb no_bad (outs (run W trap (fuel_bs bs) bs ops)) = true.
+Proof. intros W trap bs ops HW Hb. apply C08_nopanic_cond. apply lz_new_sane; assumption. Qed.
+
+Theorem C08_strings : forall W trap bs ops, lenN bs < 2 ^ W -> Forall (fun b => b < 256) bs ->
+  let st := run W trap (fuel_bs bs) bs ops in
+  forall h n, In (OVal (AStr h n)) (outs st) ->
+  exists ptr, node_of (roots st) h = Some (LStr ptr n) /\ ptr + n <= lenN bs.
+Proof. intros W trap bs ops HW Hb. apply C08_strings_cond. apply lz_new_sane; assumption. Qed.
+
+(** the former refutation witnesses are now plain errors *)
+Example fixed_nan :
+  outs (run 32 true (fuel_bs [0xcb;0x7f;0xf8;0;0;0;0;0;0]) [0xcb;0x7f;0xf8;0;0;0;0;0;0] [RRoot]) = [OVal (AErr E_Read)].
+Proof. vm_compute. reflexivity. Qed.
+Example fixed_stray :
+  outs (run 32 true (fuel_bs [0xd9;0xc8;0x61;0x62]) [0xd9;0xc8;0x61;0x62] [RRoot; RStr (Some 0)])
+  = [OVal (AErr E_Read); OBytes None].
+Proof. vm_compute. reflexivity. Qed.
+Example fixed_key_slice :
+  outs (run 32 true (fuel_bs [0x81;0xd9;0x64;0x6b]) [0x81;0xd9;0x64;0x6b] [RRoot; RProp (Some 0) [0x6b]])
+  = [OVal (AObj (0, []) 1); OVal (AErr E_Read)].
+Proof. vm_compute. reflexivity. Qed.
+Example fixed_wrap :
+  outs (run 32 false (fuel_bs [0xdd;0xff;0xff;0xff;0xff;0xdb;0xff;0xff;0xff;0xfb])
+        [0xdd;0xff;0xff;0xff;0xff;0xdb;0xff;0xff;0xff;0xfb] [RRoot; RIdx (Some 0) 1000])
+  = [OVal (AArr (0, []) 4294967295); OVal (AErr E_Read)].
 Proof. vm_compute. reflexivity. Qed.
